@@ -196,6 +196,7 @@ type compiled struct {
 	err   error
 	panic string
 	nodes []*simNode
+	tail  []fhirpath.CompileOption // the caller's options behind the window passed to Compile
 }
 
 // compile builds the expression for a program spec. Only the root calls it.
@@ -219,12 +220,49 @@ func compile(spec ProgSpec, stats *Stats) (c *compiled) {
 	if stats != nil {
 		stats.Compiles++
 	}
+	// the options are handed over as a window of a longer slice; what lies behind the window
+	// belongs to the caller and is checked afterwards (compileTailIntact)
+	full := append(append(make([]fhirpath.CompileOption, 0, len(opts)+2), opts...), compileSentinels()...)
+	c.tail = full[len(opts):]
 	if spec.Patch {
-		c.pp, c.err = patch.Compile(spec.Src, opts...)
+		c.pp, c.err = patch.Compile(spec.Src, full[:len(opts)]...)
 	} else {
-		c.fp, c.err = fhirpath.Compile(spec.Src, opts...)
+		c.fp, c.err = fhirpath.Compile(spec.Src, full[:len(opts)]...)
 	}
 	return c
+}
+
+var sentinelCompileOpts []fhirpath.CompileOption
+
+func compileSentinels() []fhirpath.CompileOption {
+	if sentinelCompileOpts == nil {
+		id := func(in system.Collection) (system.Collection, error) { return in, nil }
+		sentinelCompileOpts = []fhirpath.CompileOption{compopts.AddFunction("zsfn0", id), compopts.AddFunction("zsfn1", id)}
+	}
+	return sentinelCompileOpts
+}
+
+// compileTailIntact reports whether the two options of the caller's that sat behind the window
+// passed to Compile are still the caller's options.
+func (c *compiled) compileTailIntact() bool {
+	if len(c.tail) != 2 {
+		return true
+	}
+	saved := parser.VerifWrap
+	parser.VerifWrap = nil
+	defer func() { parser.VerifWrap = saved }()
+	for k := 0; k < 2; k++ {
+		ok := false
+		func() {
+			defer func() { _ = recover() }()
+			_, err := fhirpath.Compile(fmt.Sprintf("zsfn%d()", k), c.tail[k])
+			ok = err == nil
+		}()
+		if !ok {
+			return false
+		}
+	}
+	return true
 }
 
 func (c *compiled) ok() bool { return c.err == nil && c.panic == "" && (c.fp != nil || c.pp != nil) }
